@@ -97,31 +97,33 @@ Definition dk_mem (x : Z) (l : list Z) : bool := existsb (Z.eqb x) l.
 
 Inductive dk_res := DAccept | DReject | DPanic.
 
-(* contributeMpk. claimed = MPK.ID after json decoding: the sender unless the input carries an "ID" *)
+(* contributeMpk. claimed = the "ID" the input carries, if any: it is overwritten with the sender after decoding
+   (`mpk.ID = t.ClientID`), so the key is recorded under the sender whatever the input says *)
 Definition dk_contribute (phase : Z) (d : dk_state) (sender claimed : Z) (decodes : bool) (mpk_len : Z) : dk_state * dk_res :=
   if negb (Z.eqb phase ph_Contribute) then (d, DReject)
   else if negb (dk_mem sender (dk_miners d)) then (d, DReject)
   else if negb decodes then (d, DReject)
   else if negb (Z.eqb mpk_len (dk_T d)) then (d, DReject)
-  else if dk_mem claimed (dk_mpks d) then (d, DReject)
+  else if dk_mem sender (dk_mpks d) then (d, DReject)
   else ({| dk_miners := dk_miners d; dk_T := dk_T d; dk_K := dk_K d; dk_mpks_node := true;
-           dk_mpks := claimed :: dk_mpks d; dk_gsos := dk_gsos d; dk_waited := dk_waited d |}, DAccept).
+           dk_mpks := sender :: dk_mpks d; dk_gsos := dk_gsos d; dk_waited := dk_waited d |}, DAccept).
 
 (* one entry of ShareOrSigns.ShareOrSigns as ShareOrSigns.Validate sees it *)
 Inductive so_entry :=
-  | SoNil                                   (* null value: skipped *)
+  | SoNil                                   (* null value: refused *)
   | SoSign (ok : bool)                      (* Sign != "": key has a public key in the DKG set and the signature verifies *)
-  | SoShare (hex_ok : bool) (valid : bool). (* revealed share: parses; validates against the MPK of sos.ID *)
+  | SoShare (hex_ok : bool) (valid : bool). (* revealed share: parses; validates against the MPK of the sender *)
 
-(* Validate in map iteration order (= list order); id_known = the MPKs node has an entry for sos.ID (from the input) *)
+(* Validate in map iteration order (= list order); id_known = the MPKs node has an entry for the sender
+   (sos.ID is set to the sender before the call). Every branch that fails returns false: no order dependence *)
 Fixpoint so_validate (id_known : bool) (es : list so_entry) : dk_res :=
   match es with
   | [] => DAccept
-  | SoNil :: tl => so_validate id_known tl
+  | SoNil :: tl => DReject
   | SoSign ok :: tl => if ok then so_validate id_known tl else DReject
   | SoShare hex_ok valid :: tl =>
       if negb hex_ok then DReject
-      else if negb id_known then DPanic        (* mpks.Mpks[sos.ID].Mpk on a nil *MPK *)
+      else if negb id_known then DReject
       else if valid then so_validate id_known tl else DReject
   end.
 
@@ -129,6 +131,7 @@ Definition dk_share (phase : Z) (d : dk_state) (sender : Z) (decodes : bool) (id
   : dk_state * dk_res :=
   if negb (Z.eqb phase ph_Publish) then (d, DReject)
   else if dk_mem sender (dk_gsos d) then (d, DReject)
+  else if negb (dk_mem sender (dk_miners d)) then (d, DReject)      (* miner not part of dkg set *)
   else if negb decodes then (d, DReject)
   else if Z.ltb (Z.of_nat (List.length es)) (dk_K d - 1) then (d, DReject)
   else if negb (dk_mpks_node d) then (d, DReject)
@@ -222,20 +225,25 @@ Definition vc_block_step (rounds : Z -> Z) (is_vc : bool) (s : vc_state) (b : vc
 
 (* SimpleNodes.reduce: prev = the candidates that are in the previous magic block, ranked by stake;
    x = min(len(prev), int(math.Ceil(xPercent*maxNodes))) of them are taken first; [others] is whatever the
-   stake ranking and the seeded permutation pick from the rest. A negative x panics (slice bounds). *)
+   stake ranking and the seeded permutation pick from the rest. A negative x would panic (slice bounds);
+   GlobalNode.validate keeps x_percent in (0; 1], so x >= 1 whenever there is a previous candidate. *)
 Definition rd_select (ceilx : Z) (prev others : list Z) : option (list Z) :=
   let x := Z.min (Z.of_nat (List.length prev)) ceilx in
   if Z.ltb x 0 then None else Some ((firstn (Z.to_nat x) prev ++ others)%list).
 
 Definition rd_has_prev (is_prev : Z -> bool) (l : list Z) : bool := existsb is_prev l.
 
-(* reduceShardersList after the reduce: `if !hasPrevSharderInList(pmb, nodes) { prev := rankedPrevSharders(pmb, nodes);
-   if len(prev) == 0 { panic } ... }` - the fallback looks in the already reduced list *)
+(* ceil(p/q * n) for a validated x_percent = p/q in (0; 1] *)
+Definition rd_ceil (p q n : Z) : Z := (p * n + q - 1) / q.
+
+(* reduceShardersList after the reduce: `if !hasPrevSharderInList(pmb, nodes) { prev := rankedPrevSharders(pmb, tmpMinerNodes);
+   if len(prev) == 0 { panic } nodes = append(nodes, prev[0]) }` - the fallback takes the best previous sharder of
+   the candidates *)
 Definition rd_sharders (is_prev : Z -> bool) (ceilx : Z) (prev others : list Z) : option (list Z) :=
   match rd_select ceilx prev others with
   | None => None
   | Some l => if rd_has_prev is_prev l then Some l
-              else match filter is_prev l with
+              else match prev with
                    | [] => None
                    | p :: _ => Some ((l ++ [p])%list)
                    end
